@@ -33,6 +33,9 @@ META = {
                  'stale agent_index': 'agent params that already contain an agent_index entry',
                  'variants': 'model already complete while decoding; hook function re-defined between two decodes; a hook '
                              'at every lifecycle point decodes another file with the same decoder instance',
+                 'twin module': 'a second module with classes of the same names (FxSystem, FxAgent): first or last '
+                                'entry of each list taken from it, the others (and the description decoded in between) '
+                                'from the usual module; oracle: module of the class each listed object was built from',
                  'repetition': 'decode(F), decode(other file), decode(F) again in one process'},
     'bounds': {'quick': 'all shapes with systems+groups <= 2 in full; shape (2,2) with 5 hook patterns',
                'thorough': 'shapes (2,1),(1,2),(2,2) with every hook subset as well'},
@@ -147,6 +150,41 @@ class FxAgent(Core.Agent, IDecodable):
         return FxAgent(f"{params['group']}_{params.get('agent_index')}", params['model'])
 
 
+TWIN_MODULE = 'c18_twin'        # a second plug-in package that also calls its classes FxSystem / FxAgent
+
+
+def _install_twin():
+    """Another module with classes of the SAME names as the listed ones: an entry names a class by (module, name)."""
+    import types
+
+    class TwSystem(FxSystem):
+        @staticmethod
+        def decode(params):
+            LOG.append(['system', params['id'], _state(params.get('model'))])
+            return TwSystem(params['id'], params['model'], priority=params['priority'], frequency=params['frequency'],
+                            start=params['start'], end=params['end'])
+
+    class TwAgent(FxAgent):
+        @staticmethod
+        def decode(params):
+            LOG.append(['agent', params['group'], params.get('agent_index'), _state(params.get('model'))])
+            return TwAgent(f"{params['group']}_{params.get('agent_index')}", params['model'])
+
+    mod = types.ModuleType(TWIN_MODULE)
+    for cls, name in ((TwSystem, 'FxSystem'), (TwAgent, 'FxAgent')):
+        cls.__name__ = cls.__qualname__ = name
+        cls.__module__ = TWIN_MODULE
+        setattr(mod, name, cls)
+    sys.modules[TWIN_MODULE] = mod
+
+
+def _twin_here(case, kind, i, n):
+    """Is entry i of n (kind 's' or 'g') taken from the twin module?  twin = 'last': the last entry of each list,
+    'first': the first one - the others come from the usual module, under the same class name."""
+    t = case.get('twin')
+    return bool(t) and n >= 1 and i == (n - 1 if t == 'last' else 0)
+
+
 def fx_hook(params):
     LOG.append(['hook', params['name'], _state(params.get('model')) if 'model' in params else None])
 
@@ -248,6 +286,8 @@ def build_desc(case):
                  'params': {'id': _sid(case, i), 'priority': prio, 'frequency': 1 + i, 'start': 0, 'end': _end(case, i)}})
         if case.get('late_at') == f'pre_s{i}':
             s['name'], s['module'] = 'FxLateSystem', LATE_MODULE
+        if _twin_here(case, 's', i, len(case['prios'])):
+            s['module'] = TWIN_MODULE
         if hooks.get(f'pre_s{i}'):
             s['pre_system_init'] = hook(f'pre_s{i}')
         if hooks.get(f'post_s{i}'):
@@ -259,6 +299,8 @@ def build_desc(case):
             a['params']['agent_index'] = 5      # a stale value in the file must not survive: indices are 0..n-1
         if case.get('late_at') == f'pre_g{g}':
             a['name'], a['module'] = 'FxLateAgent', LATE_MODULE
+        if _twin_here(case, 'g', g, len(case['sizes'])):
+            a['module'] = TWIN_MODULE
         if hooks.get(f'pre_g{g}'):
             a['pre_agent_init'] = hook(f'pre_g{g}')
         if hooks.get(f'post_g{g}'):
@@ -361,6 +403,8 @@ def decode_case(case):
         facade = types.ModuleType(FACADE_MODULE)
         facade.__getattr__ = lambda name: getattr(sys.modules[MOD], name)      # PEP 562 lazy export
         sys.modules[FACADE_MODULE] = facade
+    if case.get('twin'):
+        _install_twin()
     tmp = tempfile.mkdtemp(prefix='c18-')
     cwd0 = os.getcwd()
     try:
@@ -476,6 +520,20 @@ def check_model(m, case):
                         observed=got_agents)
     if any(a.model is not m for a in m.environment):
         raise Violation('an agent was built with another model')
+    if case.get('twin') or case.get('leg') == 'x':
+        ns = len(case['prios'])
+        want = [TWIN_MODULE if _twin_here(case, 's', i, ns) else MOD for i in range(ns)]
+        got = [type(m.systems[_sid(case, i)]).__module__ for i in range(ns)]
+        if got != want:
+            raise Violation('a listed system was built from a class of another module than the one its entry names',
+                            expected=want, observed=got)
+        ng = len(case['sizes'])
+        want = [TWIN_MODULE if _twin_here(case, 'g', g, ng) else MOD for g, n in enumerate(case['sizes'])
+                for _ in range(n) if g >= first]
+        got = [type(a).__module__ for a in m.environment]
+        if got != want:
+            raise Violation('a listed agent was built from a class of another module than the one its entry names',
+                            expected=want, observed=got)
 
 
 def _strip(log):
@@ -586,6 +644,14 @@ def cases(tier):
                         if end0:
                             out.append({'leg': 'decode', 'prios': list(prios), 'sizes': [2][:ng], 'module_key': True,
                                         'hooks': {n: hk for n in hook_names(ns, ng)}, 'end0': True})
+    # two plug-in modules that use the same class names: entries of one description (and of the description decoded in
+    # between) name their class by module AND name
+    for twin in ('first', 'last'):
+        for prios in ((0,), (0, 0), (3, 0), (-1, 3)):
+            for sizes in ([1], [2, 1], [0, 2]):
+                for pat in (True, False):
+                    out.append({'leg': 'decode', 'prios': list(prios), 'sizes': list(sizes), 'module_key': True, 'twin': twin,
+                                'hooks': {n: pat for n in hook_names(len(prios), len(sizes))}})
     return out
 
 
